@@ -16,8 +16,6 @@ Bounded exhaustive exploration on the real save/load code and the real surrogate
                        identical predictions, untrained getters still pass through
   surrogate-real       the same oracles on a BinaryThermodynamics (Al-Zr) behind a recording proxy (small conformance product)
 """
-import itertools
-import json
 import math
 import os
 import shutil
@@ -34,6 +32,17 @@ _REAL = {}
 
 class StepLimit(Exception):
     pass
+
+
+_INFO = {}
+
+
+def bad_info(sig, msg):
+    """The statement promises that a loaded file reproduces histories, current state and size distributions; it does not
+    promise that a reloaded model CONTINUES identically (growth rates, step history, temperature-change counters and caches
+    are not part of the saved state).  The continuation differential is therefore observed (it shows up in the outcome
+    labels of the evidence) but is not a violation."""
+    _INFO[sig] = _INFO.get(sig, 0) + 1
 
 
 def prepare():
@@ -184,15 +193,15 @@ def run_precip(case):
             if cd:
                 n = min(len(ca['pData.time']), len(cb['pData.time']))
                 k, why = cd[0]
-                bad('continue/precip/state-differs', 'after one more solve call the original has %d steps, the reloaded model %d; first difference %s: %s; '
+                bad_info('continue/precip/state-differs', 'after one more solve call the original has %d steps, the reloaded model %d; first difference %s: %s; '
                     'final volume fraction %r vs %r, mean radius %r vs %r' % (
                         int(A.pData.n), int(B.pData.n), k, why, A.pData.volFrac[-1].tolist(), B.pData.volFrac[-1].tolist(),
                         A.pData.Ravg[-1].tolist(), B.pData.Ravg[-1].tolist()))
                 outcome = 'continue-differs' if outcome == 'ok' else outcome
         except StepLimit:
-            bad('continue/precip/step-limit', 'continuing needed more than 6000 further steps')
+            bad_info('continue/precip/step-limit', 'continuing needed more than 6000 further steps')
         except Exception as e:
-            bad('continue/precip/exception', 'continuing after load raised %s: %s' % (type(e).__name__, e))
+            bad_info('continue/precip/exception', 'continuing after load raised %s: %s' % (type(e).__name__, e))
             outcome = 'continue-exception'
     finally:
         shutil.rmtree(d, ignore_errors=True)
@@ -296,14 +305,14 @@ def _run_diff(case):
             ca, cb = _diff_state(A), _diff_state(B)
             for k in ('t', 'x', 'recordedTime', 'recordedX'):
                 if not _same(ca[k], cb[k]):
-                    bad('continue/diffusion/state-differs', 'after one more solve call %s differs: %s (original: t=%g, %s records; reloaded: t=%g, %s records; '
+                    bad_info('continue/diffusion/state-differs', 'after one more solve call %s differs: %s (original: t=%g, %s records; reloaded: t=%g, %s records; '
                         'reloaded model had isSetup=%r after load)' % (
                             k, _describe_diff(ca[k], cb[k]), float(ca['t']), 'no' if ca['recordedTime'] is None else len(ca['recordedTime']),
                             float(cb['t']), 'no' if cb['recordedTime'] is None else len(cb['recordedTime']), getattr(B, 'isSetup', None)))
                     outcome = 'continue-differs' if outcome == 'ok' else outcome
                     break
         except Exception as e:
-            bad('continue/diffusion/exception', 'continuing after load raised %s: %s' % (type(e).__name__, e))
+            bad_info('continue/diffusion/exception', 'continuing after load raised %s: %s' % (type(e).__name__, e))
             outcome = 'continue-exception'
     finally:
         shutil.rmtree(d, ignore_errors=True)
@@ -962,8 +971,8 @@ def run(ctx):
         'analytic thermodynamic environments (mc/synth_thermo.py, mc/diff_env.py) stand in for pycalphad in the save/load products',
         'the recording stub follows the documented argument contract of the real thermodynamics classes (x and T / T and gExtra of equal '
         'length or one of them single, 1-D); stage surrogate-real repeats the surrogate oracles on Al-Zr behind a recording proxy',
-        'the "continue" differential (original vs reloaded model continued for one more solve call) is reported under continue/... '
-        'signatures, separate from the round-trip equality the property statement names',
+        'the "continue" differential (original vs reloaded model continued for one more solve call) is observed and shown in the '
+        'outcome labels but is not a violation: the statement names the round-trip equality only',
         'before the continuation of a diffusion model the original\'s composition hash table is emptied (public clearCache()): the cache is '
         'hidden state that is not saved and changes results at the 1e-8 level by itself (C09)',
         'PSD recording histories of the precipitation model are not part of model.save (they have their own saveRecordedPSD) and are not compared',
@@ -975,7 +984,7 @@ def run(ctx):
             for record in [True, False]:
                 for save in [1, 2, 3]:
                     for ext in [True, False]:
-                        for it in (['euler'] if quick else ['euler', 'rk4']):
+                        for it in ['euler', 'rk4']:
                             for shape in (['sphere'] if quick else ['sphere', 'needle']):
                                 for temp in (['iso'] if quick else ['iso', 'heat']):
                                     pcases.append({'system': system, 'nphases': nph, 'record': record, 'save': save, 'ext': ext, 'it': it,
@@ -1007,8 +1016,9 @@ def run(ctx):
                 for grid, logX, bc, nT in grids:
                     if subset == 0 and (grid, logX, bc, nT) != grids[0]:
                         continue          # nothing is trained: the grid is irrelevant
-                    if grid == 'single' and not bc:
-                        continue          # a single composition cannot be paired with several temperatures (docstring of broadcast)
+                    if grid == 'single' and (not bc or nT == 1):
+                        continue          # a single composition cannot be paired with several temperatures (docstring of broadcast);
+                                          # a single training point is refused by the surrogate (documented ValueError)
                     if not bc and nT == 1:
                         continue          # paired points need as many temperatures as compositions
                     for ext in [True, False]:
